@@ -301,7 +301,6 @@ void BaseBuilder::remove_nodes(BaseNode* first, BaseNode* last) noexcept {
 
   for (;;) {
     next = node->next();
-    ASMJIT_ASSERT(next != nullptr);
 
     node->_prev = nullptr;
     node->_next = nullptr;
@@ -315,6 +314,9 @@ void BaseBuilder::remove_nodes(BaseNode* first, BaseNode* last) noexcept {
     if (node == last) {
       break;
     }
+
+    // `last` must be reachable from `first` - only `last` itself can be the last node of the list.
+    ASMJIT_ASSERT(next != nullptr);
     node = next;
   }
 
